@@ -204,7 +204,7 @@ def main(ctx):
 
     # ---- schedule universality on the model (graphs of a few sources)
     common.log("model: dataflow confluence on extracted graphs")
-    msrcs = base[:3] if quick else base[:10]
+    msrcs = base[:3] if quick else base[:6]
     builds = sched.traced_builds(ctx, msrcs, [(1, 0), (16, ctx.seed + 3)])
     for (rel, flags), runs in builds.items():
         good = [r for r in runs if r["res"].get("outcome") == "ok"]
@@ -214,7 +214,7 @@ def main(ctx):
         gj, problems = graphs.build(gs[0], gs[1:])
         gpath = ctx.path("graphs", (rel + "".join("+" + f for f in flags)).replace("/", "_") + ".json")
         json.dump(gj, open(gpath, "w"))
-        sl = [s for s in graphs.slices(gj, 9 if quick else 10) if s[1] >= 5][: (2 if quick else 6)]
+        sl = [s for s in graphs.slices(gj, 9 if quick else 10) if s[1] >= 5][: (2 if quick else 4)]
         for n, (c, real, name) in enumerate(sl):
             sp = ctx.path("slices", "%s_%d.json" % ((rel + "".join("+" + f for f in flags)).replace("/", "_"), n))
             json.dump(graphs.slice_graph(gj, c), open(sp, "w"))
@@ -231,7 +231,7 @@ def main(ctx):
             ev.sample({"kind": "slice", "source": rel, "target": name, "executing_jobs": real,
                        "distinct_states": r.distinct, "complete": r.complete}, limit=8)
         r = common.run_tlc(ctx, "Workload", "MCWorkloadSim.cfg", workers=4, timeout=600, xmx="4g", env={"GRAPH": gpath},
-                           simulate=40 if quick else 400, depth=4000, tag="sim")
+                           simulate=40 if quick else 150, depth=4000, tag="sim")
         ev.evaluations += 1
         if r.violated in ("ReadsFromCanonical", "OrderOK"):
             ctx.violation("model:%s:%s" % (rel, r.violated),
